@@ -728,7 +728,7 @@ let rec parse_doc (t : string array) (i : int ref) : doc =
   | _ -> let v = unhex t.(!i) in incr i; DScalar v
 
 let sviol_name = function
-  | SUnknownKey k -> "unknown-key:" ^ implode k | SRequired k -> "required:" ^ implode k | SEnum v -> "enum:" ^ implode v | SShape -> "shape"
+  | SUnknownKey k -> "unknown-key:" ^ implode k | SRequired k -> "required:" ^ implode k | SEnum v -> "enum:" ^ implode v | SShape -> "shape" | SNot -> "not" | SConst v -> "const:" ^ implode v
 
 let split_path (p : string) : string list = List.filter (fun x -> x <> "") (String.split_on_char '/' p)
 
@@ -837,7 +837,9 @@ let run_cfg which file =
                    | SRequired k -> List.mem (implode k) ["arch"; "version"; "dst"; "name"] | _ -> false) others in
                let lvl_only = List.for_all (fun v -> match v with
                    | SEnum v -> String.contains (implode v) ':' | SRequired k -> List.mem (implode k) ["arch"; "version"; "dst"; "name"] | _ -> false) others in
-               if req_only then ["schema-requires-defaulted-fields"] else if lvl_only then ["schema-compression-level-suffix"] else []
+               (* the recorded exception is rpm's level suffix; the same for another format is a different violation *)
+               let is_probe_of_other_format = String.length id > 6 && String.sub id 0 6 = "value-" && not (String.length id > 10 && String.sub id 0 10 = "value-rpm.") in
+               if req_only then ["schema-requires-defaulted-fields"] else if lvl_only && not is_probe_of_other_format then ["schema-compression-level-suffix"] else []
              end else [] in
            if clauses <> [] then begin
              incr n_fail;
@@ -920,19 +922,30 @@ let run_c13 file =
           | Some b ->
             let c = { k_base = b; k_blocks = List.rev !blocks; k_gets = List.rev !gets; k_validate_ok = !vok; k_registered = !reg } in
             let clauses = check_C13 c in
+            (* correspondence: the model of the code (mergo) against the code *)
+            let model_diff = List.filter_map (fun (f, got) ->
+                let m = config_get b c.k_blocks f in
+                if got = m then None else Some (f, first_diff (implode f) got m)) c.k_gets in
             let names = List.map (function OEffective f -> "effective-settings:" ^ implode f | OUnknownAccepted f -> "unknown-format-accepted:" ^ implode f) clauses in
             let names = names
                         @ List.map (fun f -> "get-depends-on-history:" ^ f) (List.sort_uniq compare !seq_bad)
                         @ (if !base_changed then ["get-changed-the-configuration"] else [])
                         @ List.map (fun f -> "foreign-entry-in-package:" ^ f) !foreign_bad in
-            if names <> [] then begin
-              incr n_fail; incr n_dis;
+            let mnames = List.map (fun (f, _) -> "model-of-merge:" ^ implode f) model_diff in
+            (* known finding: every property-level difference is one the model of the code reproduces, i.e. the
+               empty-map-value rule (the only place where model and property reading differ) *)
+            let only_effective = List.for_all (function OEffective _ -> true | _ -> false) clauses
+                                 && !seq_bad = [] && not !base_changed && !foreign_bad = [] in
+            let kf = if clauses <> [] && only_effective && model_diff = [] then ["override-empty-map-value"] else [] in
+            if names <> [] || mnames <> [] then begin
+              incr n_fail; if kf = [] then incr n_dis;
               let detail = List.filter_map (function
                   | OEffective f ->
                     let got = List.assoc f c.k_gets in
-                    (match first_diff (implode f) got (config_get b c.k_blocks f) with Some d -> Some d | None -> Some (implode f ^ ": shapes differ"))
-                  | OUnknownAccepted f -> Some ("Validate accepted an override block for " ^ implode f)) clauses in
-              report !id false names [] detail
+                    (match first_diff (implode f) got (spec_get b c.k_blocks f) with Some d -> Some d | None -> Some (implode f ^ ": shapes differ"))
+                  | OUnknownAccepted f -> Some ("Validate accepted an override block for " ^ implode f)) clauses
+                           @ List.filter_map (fun (_, d) -> match d with Some x -> Some ("model of the code: " ^ x) | None -> None) model_diff in
+              report ~kf !id (kf <> [] || (names = [] && mnames = [])) names mnames detail
             end)
        | _ -> ()
      done
